@@ -1,11 +1,157 @@
 (* C16 - The module cache never serves a partial download, whatever crashes or races.
-   Only statements, closed by [exact], and Print Assumptions. *)
-From Verif Require Import Cache.Model Cache.Proofs.
+   Only statements, closed by [exact], and Print Assumptions.
+
+   Model: Cache/Model.v (executable [step : cfg -> world -> label -> option world]).
+   [reachable c w]: w is reached from the empty cache by ANY sequence of labels:
+   [Spawn p k] (a goroutine of process p calls Fetch / FetchFromCache / ModFile - any
+   number of processes and goroutines), [Eff i e] (thread i performs its next
+   file-system effect or internal event, incl. registry faults - any interleaving),
+   [Crash p] (process p is killed - at any point; its flock is released).
+   [env_ok c]: the protocol as written (no variant flag) and no local I/O errors. *)
+From Verif Require Import Cache.Model Cache.Inv Cache.Safety Cache.Recovery Cache.Variants Cache.Examples Cache.Proofs.
 From Coq Require Import List.
 Import ListNotations.
 
-(* every world the trace acceptor (the tie to the traced system calls) returns is reachable *)
+(* The invariant (store: zip/module file present => complete; directory unmarked =>
+   complete; per-thread knowledge; flock discipline) holds initially and is preserved
+   by every step: it is inductive, hence holds in every reachable world. *)
+Theorem C16_inv_init : forall c, Inv c world0.
+Proof. exact inv_init. Qed.
+Print Assumptions C16_inv_init.
+
+Theorem C16_inv_inductive : forall c w l w', env_ok c -> Inv c w -> step c w l = Some w' -> Inv c w'.
+Proof. exact inv_step. Qed.
+Print Assumptions C16_inv_inductive.
+
+Theorem C16_inv_reachable : forall c w, env_ok c -> reachable c w -> Inv c w.
+Proof. exact inv_reachable. Qed.
+Print Assumptions C16_inv_reachable.
+
+(* A directory is never reported available while incomplete: every Fetch/FetchFromCache
+   call that has returned success (via the unlocked two-stat test of downloadDir, the
+   re-check under the lock, or its own extraction) sees the complete content. *)
+Theorem C16_reachable_safe : forall c, env_ok c -> forall w i t,
+  reachable c w -> nth_error (threads w) i = Some t -> tpc t = Done ROk -> tkind t <> KModFile ->
+  complete c (st w).
+Proof. exact reachable_safe. Qed.
+Print Assumptions C16_reachable_safe.
+
+(* The TOCTOU window of downloadDir for an arbitrary observer: stat(dir) succeeded in
+   w1; after ANY further activity, stat(.partial) fails in w2; then dir is complete in w2. *)
+Theorem C16_two_stat_safe : forall c, env_ok c -> forall w1 ls w2,
+  reachable c w1 -> dir (st w1) <> None -> run c w1 ls = Some w2 -> marker (st w2) = false ->
+  complete c (st w2).
+Proof. exact two_stat_safe. Qed.
+Print Assumptions C16_two_stat_safe.
+
+Theorem C16_available_complete : forall c, env_ok c -> forall w,
+  reachable c w -> dir (st w) <> None -> marker (st w) = false -> complete c (st w).
+Proof. exact available_complete. Qed.
+Print Assumptions C16_available_complete.
+
+(* once complete, complete in every later world *)
+Theorem C16_complete_stable : forall c, env_ok c -> forall w ls w',
+  reachable c w -> complete c (st w) -> run c w ls = Some w' -> complete c (st w').
+Proof. exact complete_stable. Qed.
+Print Assumptions C16_complete_stable.
+
+(* cached zip and module file are absent or complete, in every reachable world *)
+Theorem C16_zip_absent_or_complete : forall c, env_ok c -> forall w,
+  reachable c w -> zip (st w) = None \/ zip (st w) = Some (zsize c).
+Proof. exact zip_absent_or_complete. Qed.
+Print Assumptions C16_zip_absent_or_complete.
+
+Theorem C16_modfile_absent_or_complete : forall c, env_ok c -> forall w,
+  reachable c w -> modf (st w) = None \/ modf (st w) = Some (msize c).
+Proof. exact modfile_absent_or_complete. Qed.
+Print Assumptions C16_modfile_absent_or_complete.
+
+Theorem C16_modfile_safe : forall c, env_ok c -> forall w i t,
+  reachable c w -> nth_error (threads w) i = Some t -> tpc t = Done ROk -> tkind t = KModFile ->
+  modf (st w) = Some (msize c).
+Proof. exact modfile_safe. Qed.
+Print Assumptions C16_modfile_safe.
+
+(* flock discipline *)
+Theorem C16_lock_exclusive : forall c, env_ok c -> forall w i j ti tj, reachable c w ->
+  nth_error (threads w) i = Some ti -> nth_error (threads w) j = Some tj ->
+  locked_pc (tpc ti) = true -> locked_pc (tpc tj) = true -> i = j.
+Proof. exact lock_exclusive. Qed.
+Print Assumptions C16_lock_exclusive.
+
+(* Unzip's error path (RemoveAll + remove marker) is dead code without local I/O errors *)
+Theorem C16_unzip_error_path_unreachable : forall c, env_ok c -> forall w i t,
+  reachable c w -> nth_error (threads w) i = Some t -> tpc t <> E0 /\ tpc t <> E1 /\ tpc t <> F9 RErr.
+Proof. exact unzip_error_path_unreachable. Qed.
+Print Assumptions C16_unzip_error_path_unreachable.
+
+(* Recovery: after any history (any number of crashes at any points, faults, races)
+   that has left no call in progress, a fetch by a fresh process run alone terminates
+   within clean_fuel steps of the fuelled clean-run function, returns Ok, and the
+   directory is the complete content. *)
+Theorem C16_recovery : forall c w p, env_ok c -> reachable c w -> quiescent w ->
+  mem_nat p (crashed w) = false -> sfz (ps w p) = SfIdle ->
+  exists w0 w' t',
+    step c w (Spawn p KFetch) = Some w0 /\
+    run_clean c (clean_fuel c (st w0)) w0 (length (threads w)) = Some w' /\
+    nth_error (threads w') (length (threads w)) = Some t' /\ tpc t' = Done ROk /\
+    complete c (st w') /\ reachable c w'.
+Proof. exact recovery. Qed.
+Print Assumptions C16_recovery.
+
+(* Which orderings the proof relies on: each variant has a reachable state in which a
+   call has returned success while the directory is not the complete content. *)
+Theorem C16_ordering_necessary_marker_before_mkdir :
+  exists ls w, run (base false true false false false) world0 ls = Some w /\ unsafe (base false true false false false) w.
+Proof. exact ordering_necessary_marker_before_mkdir. Qed.
+Print Assumptions C16_ordering_necessary_marker_before_mkdir.
+
+Theorem C16_ordering_necessary_marker_until_extracted :
+  exists ls w, run (base false false true false false) world0 ls = Some w /\ unsafe (base false false true false false) w.
+Proof. exact ordering_necessary_marker_until_extracted. Qed.
+Print Assumptions C16_ordering_necessary_marker_until_extracted.
+
+Theorem C16_ordering_necessary_recheck_under_lock :
+  exists ls w, run (base false false false true false) world0 ls = Some w /\ unsafe (base false false false true false) w.
+Proof. exact ordering_necessary_recheck_under_lock. Qed.
+Print Assumptions C16_ordering_necessary_recheck_under_lock.
+
+Theorem C16_ordering_necessary_stat_dir_before_marker :
+  exists ls w, run (base false false false false true) world0 ls = Some w /\ unsafe (base false false false false true) w.
+Proof. exact ordering_necessary_stat_dir_before_marker. Qed.
+Print Assumptions C16_ordering_necessary_stat_dir_before_marker.
+
+(* Outside the property's fault model: with a local I/O error during extraction the
+   protocol as written reaches an unsafe state (error path removes directory, then marker). *)
+Theorem C16_io_error_path_toctou_refuted :
+  exists ls w, run (base true false false false false) world0 ls = Some w /\ unsafe (base true false false false false) w.
+Proof. exact io_error_path_toctou_refuted. Qed.
+Print Assumptions C16_io_error_path_toctou_refuted.
+
+(* the tie: every world the trace acceptor returns is reachable *)
 Theorem C16_accept_sound : forall c ls ws, (forall w, In w ws -> reachable c w) ->
   forall w', In w' (accept c ws ls) -> reachable c w'.
 Proof. exact accept_sound. Qed.
 Print Assumptions C16_accept_sound.
+
+(* non-vacuity *)
+Example C16_served_reachable :
+  exists w i t, reachable c_ok w /\ nth_error (threads w) i = Some t /\ tpc t = Done ROk /\ tkind t = KFromCache.
+Proof. exact served_reachable. Qed.
+Print Assumptions C16_served_reachable.
+
+Example C16_crash_mid_state :
+  dir (st w_crash_mid) = Some [(0, 0)] /\ marker (st w_crash_mid) = true /\ lock (st w_crash_mid) = None /\
+  zip (st w_crash_mid) = Some 1 /\ quiescent w_crash_mid.
+Proof. exact crash_mid_state. Qed.
+Print Assumptions C16_crash_mid_state.
+
+Example C16_two_stat_window :
+  exists ls w2, dir (st w_crash_mid) <> None /\ run c_ok w_crash_mid ls = Some w2 /\ marker (st w2) = false.
+Proof. exact two_stat_window. Qed.
+Print Assumptions C16_two_stat_window.
+
+Example C16_recovery_applicable :
+  reachable c_ok w_crash_mid /\ quiescent w_crash_mid /\ mem_nat 1 (crashed w_crash_mid) = false /\ sfz (ps w_crash_mid 1) = SfIdle.
+Proof. exact (conj w_crash_mid_reachable recovery_applicable). Qed.
+Print Assumptions C16_recovery_applicable.
